@@ -3,6 +3,7 @@ import Csvq.Model.Proto
 import Csvq.Model.Group
 import Csvq.Model.FormatFloat
 import Csvq.Model.Aggregate
+import Csvq.Model.AggEval
 namespace Csvq.Drive
 open Csvq Csvq.Proto
 
@@ -110,9 +111,162 @@ def aggOne (sep : Bytes) (cells : List Profile) (ks : List KTok) (fn : String) :
     some (String.intercalate "," ((Agg.floatList cells).map fun f => showF (FVal.powTwo f) ++ "/" ++ showF (FVal.sqrt f)))
   | _ => none)
 
-def c04 (cmd : String) (args : List String) : String :=
+/-! ### GROUP BY → grouped records → evalAggregateFunction / evalListFunction (Model/AggEval.lean) -/
+
+/-- cell of the aggregated column: ktok~dtext (dtext: the RFC 3339 text JSON_AGG writes for a DATETIME cell) -/
+structure GTok where
+  k : KTok
+  dtext : Option Bytes
+
+def parseGTok (s : String) : Option GTok :=
+  match s.splitOn "~" with
+  | [p, f, t, d] => do
+    let p ← parseProfile p
+    let f ← parseOpt parseHexX f
+    let t ← parseOpt parseHexX t
+    let d ← parseOpt parseHexX d
+    pure { k := { p := p, ftext := f, trim := t }, dtext := d }
+  | _ => none
+
+/-- one table row of a `gagg` line: its grouping key (serialised as for `c04.group`), the value of the aggregated
+    expression for this row, the value of the ORDER BY expression of the list functions -/
+structure GRow where
+  key : Bytes
+  arg : GTok
+  ord : Int
+
+def parseGRows (strict : Bool) (w : Nat) : Nat → List String → Option (List GRow)
+  | 0, _ => some []
+  | fuel + 1, toks =>
+    if toks.isEmpty then some [] else
+    match (toks.take w).mapM parseKTok, (toks.drop w) with
+    | some ks, a :: o :: rest => do
+      let a ← parseGTok a
+      let o ← o.toInt?
+      let more ← parseGRows strict w fuel rest
+      pure ({ key := rowKey strict ks, arg := a, ord := o } :: more)
+    | _, _ => none
+
+/-- a call: function, DISTINCT, ORDER BY of a list function (0 none, 1 ascending, 2 descending), argument -/
+structure GCall where
+  fn : String
+  distinct : Bool
+  order : Nat
+  arg : Agg.ArgExpr
+
+def argCol : Agg.Row → Profile := fun r => r.getD 0 (profileOf .null)
+def ordCol : Agg.Row → Int := fun r => ((r.getD 1 (profileOf .null)).int?).getD 0
+
+def parseGCall (s : String) : Option GCall :=
+  match s.splitOn ":" with
+  | [fn, d, o, a] => do
+    let d ← parseBool d
+    let o ← o.toNat?
+    let arg ← (if a = "c" then some (Agg.ArgExpr.expr argCol)
+               else if a = "s" then some Agg.ArgExpr.star
+               else if a.front = 'L' then (parseProfile (a.drop 1).toString).map Agg.ArgExpr.const
+               else none)
+    pure { fn := fn, distinct := d, order := o, arg := arg }
+  | _ => none
+
+def builtinOf (fn : String) : Option Agg.BuiltinAgg :=
+  match fn with
+  | "COUNT" => some .count | "MAX" => some .max | "MIN" => some .min | "SUM" => some .sum | "AVG" => some .avg
+  | "STDEV" => some .stdev | "STDEVP" => some .stdevp | "VAR" => some .var | "VARP" => some .varp
+  | "MEDIAN" => some .median | _ => none
+
+/-- the user-defined aggregates the stream declares: the number of values `v` with `v > k` TRUE -/
+def udfCountGreater (l : List Profile) (args : List Profile) : Agg.Res :=
+  match args with
+  | [k] => .int (l.filter fun v => opGt v k == .T).length
+  | _ => .null
+
+def showJCell : Agg.JCell → String
+  | .null => "N"
+  | .bool b => if b then "B1" else "B0"
+  | .str s => "S" ++ hex s
+  | .num f => "F" ++ showF f
+
+def showListRes : Agg.ListRes → String
+  | .res r => showRes r
+  | .json none => "N"
+  | .json (some a) => "J[" ++ String.intercalate "," (a.map showJCell) ++ "]"
+
+/-- MEDIAN's sign-of-zero rule (see `showMedian`) on a result computed through the glue -/
+def showMedianRes (seen : List Profile) (r : Agg.Res) : String :=
+  match r with
+  | .flt f =>
+    let vs := Agg.medianList seen
+    if f.isZero && vs.contains .negz && vs.contains (.fin 0) then "F0" else "F" ++ showF f
+  | r => showRes r
+
+def gaggCall (strict : Bool) (trims : List (Val × Bytes)) (dtexts : List (Int × Bytes)) (sep : Bytes)
+    (record : List (List Profile)) (c : GCall) : String :=
+  let trimOf : Val → Bytes := fun v => ((trims.find? fun t => t.1 == v).map (·.2)).getD []
+  let dkey : Profile → NKey := fun p => if strict then normStrict p.raw (trimOf p.raw) else norm p
+  let dtext : Int → Bytes := fun ns => ((dtexts.find? fun t => t.1 == ns).map (·.2)).getD []
+  let ctx : Option Agg.RecCtx := some { isGrouped := true, inRange := true, record := record }
+  let kt : KeyText := { itext := decText, ftext := FF.fmtF }
+  let less : Option (Agg.Row → Agg.Row → Bool) :=
+    match c.order with
+    | 1 => some fun a b => decide (ordCol a < ordCol b)
+    | 2 => some fun a b => decide (ordCol b < ordCol a)
+    | _ => none
+  let show1 {α} (f : α → String) : Except Agg.AggErr α → String
+    | .ok a => f a
+    | .error _ => "E:not-grouping"
+  c.fn ++ "=" ++ (
+    if c.fn = "LISTAGG" then show1 showListRes (Agg.evalListFunction dkey kt dtext (some sep) less c.distinct c.arg ctx)
+    else if c.fn = "JSONAGG" then show1 showListRes (Agg.evalListFunction dkey kt dtext none less c.distinct c.arg ctx)
+    else
+      let zero := profileOf (.int 0)
+      let five := profileOf (.int 5)
+      let (fn, args) : Option Agg.BuiltinAgg × List Profile :=
+        if c.fn = "CNTPOS" then (none, [zero]) else if c.fn = "CNTGT5" then (none, [five]) else (builtinOf c.fn, [])
+      if fn.isNone && args.isEmpty then "bad-fn"
+      else
+        let r := Agg.evalAggregate dkey fn udfCountGreater args c.distinct c.arg ctx
+        if c.fn = "MEDIAN" then
+          -- the values MEDIAN saw (for the sign-of-zero rule)
+          let seen := Agg.listValues dkey (match c.arg with | .star => .const (profileOf (.int 1)) | a => a) c.distinct
+            (Agg.viewFromGrouped record)
+          show1 (showMedianRes seen) r
+        else show1 showRes r)
+
+def gagg (strict : Bool) (w cpu : Nat) (sep : Bytes) (calls : List GCall) (rows : List GRow) : String :=
+  let trims := rows.filterMap fun r => r.arg.k.trim.map fun t => (r.arg.k.p.raw, t)
+  let dtexts := rows.filterMap fun r => match r.arg.k.p.raw, r.arg.dtext with
+    | .dt ns, some t => some (ns, t) | _, _ => none
+  let table : List Agg.Row := rows.map fun r => [r.arg.k.p, profileOf (.int r.ord)]
+  let one (members : List Nat) (record : List (List Profile)) : String :=
+    String.intercalate ";" (showIdx members :: calls.map (gaggCall strict trims dtexts sep record))
+  if w = 0 then
+    -- no GROUP BY: all records are one group; without records the placeholder record
+    one (List.range table.length) (Agg.groupAllRecord 2 table)
+  else
+    let keyed : List (Bytes × Nat) := rows.zipIdx.map fun ri => (ri.1.key, ri.2)
+    let per := if cpu = 0 then keyed.length else (keyed.length + cpu - 1) / cpu
+    let gv := Agg.groupedView 2 table (chunk per keyed)
+    let members := (groupImpl (chunk per keyed)).map Prod.snd
+    if gv.isEmpty then "-"
+    else String.intercalate "|" ((members.zip gv).map fun mb => one mb.1 mb.2.2)
+
+/-- an op line may carry a note for the reader of a replay (`q:<hex of the SQL text>`) in front of its arguments -/
+def dropNote (args : List String) : List String :=
+  match args with
+  | a :: rest => if a.startsWith "q:" then rest else args
+  | [] => []
+
+def c04core (cmd : String) (args : List String) : String :=
   let bad := "bad-op"
   match cmd, args with
+  | "gagg", s :: w :: cpu :: sep :: calls :: toks =>
+    match parseBool s, w.toNat?, cpu.toNat?, parseHexX sep, (calls.splitOn ",").mapM parseGCall with
+    | some strict, some w, some cpu, some sep, some calls =>
+      match parseGRows strict w (toks.length + 1) toks with
+      | some rows => gagg strict w cpu sep calls rows
+      | none => bad
+    | _, _, _, _, _ => bad
   | "key", s :: toks =>
     match parseBool s, toks.mapM parseKTok with
     | some strict, some ks => if ks.all ktokFloatOK then hex (rowKey strict ks) else "float-text-differs"
@@ -153,5 +307,7 @@ def c04 (cmd : String) (args : List String) : String :=
       | none => bad
     | _, _, _ => bad
   | _, _ => bad
+
+def c04 (cmd : String) (args : List String) : String := c04core cmd (dropNote args)
 
 end Csvq.Drive
